@@ -10,6 +10,7 @@ Terms: {"v":name} | {"c":text} | {"l":[params],"b":body} | {"f":func,"a":[args]}
   {"op":"wparse","toks":[..]}                      -> {"q":T} | {"none":true}
   {"op":"procmd","items":[[kind,key,val]..],"keys":[..]}   -> {"err":cls} | {"types":[..],"fns":[..],"enums":[..],"injects":[..],"scripts":[..]}
   {"op":"variant","kind":K,"q":T,"q2":T,...}       -> {"related":bool,"excluded":string|null, ...}
+      kind "alpha" with "globals":[names]           -> also {"readsGlobal":bool,"readsGlobal2":bool,"binderLikeGlobal":bool}
   {"op":"put","id":I,"toks":[tok..]}               -> {"put":true}      (a lexed file, kept for later `same` requests)
   {"op":"same","a":O,"b":O}                        -> {"strict":bool,"diag":bool,"firstDiff":k}   O = {"ok":[I..]} | {"err":cls}
 Run: lake env lean --run FaxVerif/C08/Driver.lean
@@ -184,7 +185,15 @@ def handleReq (store : Store) (j : Json) : Except String Json := do
                  ("argNameRisk", Json.bool (argNameRisk q || argNameRisk q2)),
                  ("captureFree", Json.bool (captureFreeB fuel q && captureFreeB fuel q2))]
     if kind == "alpha" then
-      return Json.mkObj ([("related", Json.bool (alphaB q q2))] ++ base)
+      -- optional "globals": the namespaces the query declares; does the query read one free / is a parameter spelled like one?
+      let globals := match j.getObjVal? "globals" with
+        | .ok g => match strs g with
+          | .ok l => l
+          | .error _ => []
+        | .error _ => []
+      return Json.mkObj ([("related", Json.bool (alphaB q q2)),
+                          ("readsGlobal", Json.bool (readsAnyB globals q)), ("readsGlobal2", Json.bool (readsAnyB globals q2)),
+                          ("binderLikeGlobal", Json.bool (binderAmongB globals q2))] ++ base)
     else if kind == "style" then
       return Json.mkObj ([("related", Json.bool (normStyle q == normStyle q2))] ++ base)
     else if kind == "md" then
